@@ -21,7 +21,7 @@ MonInit == Init /\ l = 1
 MonNext ==
     /\ l <= Len(TraceLog)
     /\ l' = l + 1
-    /\ UNCHANGED <<B, dmap, dlru, I, path, F, fmap, flru, R>>
+    /\ UNCHANGED <<B, dmap, dlru, I, path, F, fmap, flru, R, shut>>
     /\ W' = CASE Ev.ev = "Reset" -> W0
               [] Ev.ev = "AddOpen" -> [W EXCEPT ![Ev.w].key = Ev.k, ![Ev.w].len = Ev.len, ![Ev.w].st = "open"]
               [] Ev.ev \in {"CommitPublish", "CommitDirect", "CommitBegin"} -> [W EXCEPT ![Ev.w].st = "published"]
